@@ -71,7 +71,7 @@ _sig_cache = {}
 
 def _sig(ctx):
     if ctx not in _sig_cache:
-        db = docgen.make_db(ctx)
+        db = docgen.make_db('legacyspell-ref' if ctx == 'legacyspell' else ctx)
         if db is None:
             from pylatexenc.latexwalker import get_default_latex_context_db
             db = get_default_latex_context_db()
@@ -137,6 +137,16 @@ def gen_cases(seed, tier):
                           'desc': {'ctx': 'chained', 's': head + '{' + b + '}', 'tolerant': False, 'origin': 'argument-delta',
                                    'twin': '\\plain{' + b + '}'}})
     cases += PC.twin_cases(rnd, 250 if tier == 'quick' else 4000)
+    # signatures declared through the pylatexenc-2 spelling (real code only): documents generated from the same
+    # signatures given as argument lists must come back with the structure they were written with
+    sig = _sig('legacyspell')
+    g = docast.DocGen(rnd, sig, [n for n, _ in docgen.LEGACYSPELL_MACROS] + ['!', 'unk'], [n for n, _ in docgen.LEGACYSPELL_ENVS] + ['zz'],
+                      ['~'], ['lz'])
+    for _ in range(400 if tier == 'quick' else 6000):
+        doc = g.items(0)
+        c = _case('legacyspell', doc, rnd.randint(0, 10**9))
+        c['nt'] = _has(doc, ('macro', 'env'))
+        cases.append(c)
     return cases
 
 
@@ -186,9 +196,21 @@ def oracle(c):
     doc = _to_tuples(d['doc'])
     want = docast.canon(docast.expected(sig, doc))
     got = docast.canon(docast.struct(r[1]))
+    if d['ctx'] == 'legacyspell':
+        # documented difference of the pylatexenc-2 arguments parser: a macro or specials read as a single-token
+        # argument has no parsed-arguments object (C16, normalisation N1) - "no arguments" on both sides here
+        want, got = _n1(want), _n1(got)
     if want != got:
         return ('structure-differs', {'expected': _first_diff(want, got)[0], 'observed': _first_diff(want, got)[1]})
     return None
+
+
+def _n1(x):
+    if isinstance(x, list):
+        if len(x) == 3 and x[0] in ('M', 'S') and isinstance(x[1], str) and x[2] in (None, []):
+            return [x[0], x[1], []]
+        return [_n1(y) for y in x]
+    return x
 
 
 def _to_tuples(x):
